@@ -8,7 +8,7 @@ MODEL_TARGETS = ["C18/Cases.vo"]
 PROOF_TARGETS = ["C18/Gen.vo", "C18/Bridge.vo", "C18/Proofs.vo"]
 OBLIGATION_FILES = ["C18/Bridge.v"]
 PROPS_FILE = "C18/Props.v"
-SHARD = 60
+SHARD = 40
 PER_CASE_TIMEOUT = 120
 RULE = ("roundtrip: random univariate equal-length panels (1-6 instances, length 1-30, value regimes: "
         "small ints, big ints, unit floats, 1e-6..1e9 mixed magnitudes per series / per panel, negative, "
@@ -49,6 +49,7 @@ MODELLED = [
 NOT_RUNNABLE = []
 
 DATA = "sktime/datasets/data"
+SPLIT_K = 20
 LOADERS = ["load_gunpoint", "load_arrow_head", "load_italy_power_demand", "load_basic_motions",
            "load_japanese_vowels", "load_osuleaf", "load_acsf1"]
 LOADER_NAME = {"load_gunpoint": "GunPoint", "load_arrow_head": "ArrowHead",
@@ -298,17 +299,26 @@ def gen_cases(rng, tier):
                   "series_length": 0})
     cases += _ts_variants()
     cases += _flat_variants()
+    heavy = []
     files = bundled_files()
     names = {}
     for d, f, ext in files:
-        cases.append({"kind": "file", "dataset": d, "file": f, "fmt": ext})
+        heavy.append({"kind": "file", "dataset": d, "file": f, "fmt": ext})
         names.setdefault(d, set()).add(ext)
     for d in sorted(names):
         if len(names[d]) >= 2:
-            cases.append({"kind": "formats", "dataset": d, "fmts": sorted(names[d])})
+            heavy.append({"kind": "formats", "dataset": d, "fmts": sorted(names[d])})
     for fn in LOADERS:
-        cases.append({"kind": "split", "loader": fn})
-    return cases
+        heavy.append({"kind": "split", "loader": fn})
+    # the bundled-data cases are the expensive ones inside Coq: spread them over the shards
+    heavy.sort(key=lambda c: (c.get("file") or c.get("loader") or c["dataset"])[::-1])
+    step = max(1, len(cases) // (len(heavy) + 1))
+    out = []
+    for i, c in enumerate(cases):
+        out.append(c)
+        if (i + 1) % step == 0 and heavy:
+            out.append(heavy.pop())
+    return out + heavy
 
 
 # ------------------------------------------------------------------------------------------------
@@ -786,14 +796,33 @@ def coq_case(case, out):
         ln = out["lines"]
         return "CFormats %s %s %s" % (_sl(ln["ts"]), _sl(ln["arff"]), _sl(ln["tsv"]))
     if k == "split":
+        # the Python oracle compares every instance; inside Coq the model's concatenation is run on
+        # the first / last SPLIT_K instances of each part (and the same positions of split=None)
+        ntr, nte = len(out["file_train"]["fp"]), len(out["file_test"]["fp"])
+
+        def pos(n):
+            return list(range(n)) if n <= 2 * SPLIT_K else (
+                list(range(SPLIT_K)) + list(range(n - SPLIT_K, n)))
+        ptr, pte = pos(ntr), pos(nte)
+        pno = ptr + [ntr + i for i in pte]
+
+        def sel(d, idx):
+            ok = [i for i in idx if i < len(d["fp"])]
+            return {"fp": [d["fp"][i] for i in ok],
+                    "y": [d["y"][i] for i in ok] if d["y"] is not None else None}
+
         def xy(d):
             return "(%s, %s)" % (clist(["[[%s]]" % _s(fp) for fp in d["fp"]]), _sl(d["y"]))
 
         def fr(d):
             return clist(["([[%s]], %s)" % (_s(fp), _s(y)) for fp, y in zip(d["fp"], d["y"] or [])])
+        if len(out["xy_none"]["fp"]) != ntr + nte or len(out["xy_train"]["fp"]) != ntr \
+                or len(out["xy_test"]["fp"]) != nte or len(out["fr_none"]["fp"]) != ntr + nte:
+            ptr, pte, pno = list(range(ntr)), list(range(nte)), list(range(len(out["xy_none"]["fp"])))
         return "CSplit %s %s %s %s %s %s" % (
-            xy(out["file_train"]), xy(out["file_test"]), xy(out["xy_none"]), xy(out["xy_train"]),
-            xy(out["xy_test"]), fr(out["fr_none"]))
+            xy(sel(out["file_train"], ptr)), xy(sel(out["file_test"], pte)),
+            xy(sel(out["xy_none"], pno)), xy(sel(out["xy_train"], ptr)),
+            xy(sel(out["xy_test"], pte)), fr(sel(out["fr_none"], pno)))
     return None
 
 
